@@ -84,6 +84,9 @@ class EncodeText(Contract):
             i = I.lookup(st, "i")
             tn, tg = as_symlist(st, st.obj(vv["text"]))
             I.oblige(st, f"C02.component_of_line_i_carries_line_i@L{site}", to_z3(t) == to_z3(tg(to_z3(i))), "post", site)
+            # C11: whether LaTeX conversion applies to line i is the component's own text_convert at row i (column 0)
+            from contracts.attributes import same
+            I.oblige(st, f"C11.line_i_converts_exactly_when_text_convert_at_row_i_says_so@L{site}", same(kwargs.get("convert"), AT("text_convert", to_z3(i), 0)), "post", site)
             return COMP(to_z3(i))
         return {"new:BroadcastValue": new_bv, "new:TextContent": new_text}
 
